@@ -52,6 +52,9 @@ CHECKS = {
  "C15": ("invariant monitor on the generated project of the real `incan build` (cargo stubbed; a subset compiled for real): TOML validity, package/bin names, pinned-or-path dependencies, declared crate set == crate roots referenced by the generated Rust (+ rust:: imports), refusal of unknown crates",
          "Hundreds (thorough: thousands) of programs over all combinations of feature triggers and placements, project names and rust:: import sets; the final word on omitted crates is rustc on the really-built subset.",
          "Crate roots are extracted lexically from the generated Rust; real builds are limited to crates present in the offline registry (serde, serde_json, tokio).", "5/C15"),
+ "C16": ("ground-truth monitor on the real `incan test`: generated test files whose verdicts are known by construction, marker files written by the test bodies as the witness of execution, summary/exit-status consistency",
+         "Every generated test function (9 body kinds x markers x -k/--slow/-x selections) is run by the real runner in its own cargo test; verdict lines, marker files, summary counts and exit status must agree with the truth. Exploration.",
+         "Fixtures are not generated (the runner does not wire them into the harness project).", "5/C16"),
 }
 WIP = "check not built yet in this round (work in progress; see DESIGN.md section 5 for the planned monitor)"
 ALL = ["C%02d" % i for i in range(1, 21)]
